@@ -246,8 +246,182 @@ fn answer(line: &str) -> String {
             let shared = t[4] == "1";
             conc(&dir, n, rounds, shared)
         }
+        // sched <hex dir> <run id> <paths: 0.1.0> <fs: 5.0.7 (0 = file missing)> <warm: 1.0.0> <schedule: 0.1.w1.0>
+        // threads run the real cached_source under a controller that releases one step at a time
+        "sched" => sched(&unhex_str(t[1]), t[2], t[3], t[4], t[5], t[6], t.get(7).and_then(|x| x.parse().ok()).unwrap_or(40)),
         _ => "bad-op".into(),
     }
+}
+
+mod schedctl {
+    use super::hooks;
+    use std::sync::{Arc, Condvar, Mutex};
+    use std::time::{Duration, Instant};
+
+    pub struct State {
+        pub at: Vec<Option<u8>>,      // the scheduling point a thread is parked at
+        pub arrivals: Vec<u64>,       // number of times a thread parked
+        pub permits: Vec<u32>,
+        pub finished: Vec<bool>,
+        pub free_run: bool,
+    }
+    pub struct Ctl {
+        pub st: Mutex<State>,
+        pub cv: Condvar,
+    }
+    pub struct Hook {
+        pub ctl: Arc<Ctl>,
+        pub id: usize,
+    }
+    impl hooks::SchedHook for Hook {
+        fn point(&self, k: u8) {
+            let mut g = self.ctl.st.lock().unwrap();
+            g.at[self.id] = Some(k);
+            g.arrivals[self.id] += 1;
+            self.ctl.cv.notify_all();
+            while g.permits[self.id] == 0 && !g.free_run {
+                g = self.ctl.cv.wait(g).unwrap();
+            }
+            if g.permits[self.id] > 0 {
+                g.permits[self.id] -= 1;
+            }
+            g.at[self.id] = None;
+        }
+    }
+    impl Ctl {
+        /// Waits until thread `i` has parked again (more arrivals than `seen`) or finished.
+        pub fn wait_progress(&self, i: usize, seen: u64, timeout: Duration) -> String {
+            let deadline = Instant::now() + timeout;
+            let mut g = self.st.lock().unwrap();
+            loop {
+                if g.finished[i] {
+                    return "done".into();
+                }
+                if g.arrivals[i] > seen {
+                    if let Some(k) = g.at[i] {
+                        return format!("p{}", k);
+                    }
+                }
+                let now = Instant::now();
+                if now >= deadline {
+                    return "blocked".into();
+                }
+                let (gg, _) = self.cv.wait_timeout(g, deadline - now).unwrap();
+                g = gg;
+            }
+        }
+    }
+}
+
+fn sched(dir: &str, run: &str, paths: &str, fs: &str, warm: &str, schedule: &str, step_ms: u64) -> String {
+    use schedctl::*;
+    use std::sync::{Arc, Condvar, Mutex};
+    use std::time::Duration;
+    let nums = |x: &str| -> Vec<usize> { if x == "-" { vec![] } else { x.split('.').map(|v| v.parse().unwrap()).collect() } };
+    let ps = nums(paths);
+    let fsl = nums(fs);
+    let wl = nums(warm);
+    let file_of = |p: usize| std::path::Path::new(dir).join(format!("s{}_p{}.rs", run, p));
+    for (p, c) in fsl.iter().enumerate() {
+        if *c != 0 {
+            std::fs::write(file_of(p), format!("c{}", c)).unwrap();
+        }
+    }
+    for (p, w) in wl.iter().enumerate() {
+        if *w == 1 {
+            let _ = hooks::cached_source(&file_of(p));
+        }
+    }
+    let n = ps.len();
+    let ctl = Arc::new(Ctl {
+        st: Mutex::new(State { at: vec![None; n], arrivals: vec![0; n], permits: vec![0; n], finished: vec![false; n], free_run: false }),
+        cv: Condvar::new(),
+    });
+    let mut handles = Vec::new();
+    for (i, p) in ps.iter().enumerate() {
+        let ctl2 = ctl.clone();
+        let path = file_of(*p);
+        handles.push(std::thread::spawn(move || {
+            hooks::set_sched_hook(Some(Arc::new(Hook { ctl: ctl2.clone(), id: i })));
+            let r = hooks::cached_source(&path);
+            hooks::set_sched_hook(None);
+            let mut g = ctl2.st.lock().unwrap();
+            g.finished[i] = true;
+            ctl2.cv.notify_all();
+            r.map(|a| a.to_string())
+        }));
+    }
+    // every thread parks at point 0 first
+    let mut seen_arr = vec![0u64; n];
+    for i in 0..n {
+        ctl.wait_progress(i, 0, Duration::from_secs(5));
+        seen_arr[i] = ctl.st.lock().unwrap().arrivals[i];
+    }
+    let mut obs = Vec::new();
+    let mut outstanding = vec![false; n];
+    for tok in schedule.split('.') {
+        if tok.is_empty() || tok == "-" {
+            continue;
+        }
+        let (wait_only, i) = if let Some(rest) = tok.strip_prefix('w') { (true, rest.parse::<usize>().unwrap()) } else { (false, tok.parse::<usize>().unwrap()) };
+        {
+            let mut g = ctl.st.lock().unwrap();
+            if g.finished[i] {
+                obs.push("finished".to_string());
+                continue;
+            }
+            if !wait_only {
+                if outstanding[i] {
+                    obs.push("pending".to_string());
+                    continue;
+                }
+                g.permits[i] += 1;
+                ctl.cv.notify_all();
+            }
+        }
+        let r = ctl.wait_progress(i, seen_arr[i], Duration::from_millis(if wait_only { 500.max(step_ms) } else { step_ms }));
+        outstanding[i] = r == "blocked";
+        if r != "blocked" {
+            seen_arr[i] = ctl.st.lock().unwrap().arrivals[i];
+        }
+        obs.push(r);
+    }
+    // let everything run to completion
+    {
+        let mut g = ctl.st.lock().unwrap();
+        g.free_run = true;
+        ctl.cv.notify_all();
+    }
+    // all threads must finish now (a thread that does not is stuck on a lock: deadlock)
+    {
+        let deadline = std::time::Instant::now() + Duration::from_secs(5);
+        let mut g = ctl.st.lock().unwrap();
+        while !g.finished.iter().all(|f| *f) {
+            let now = std::time::Instant::now();
+            if now >= deadline {
+                return format!("{}|DEADLOCK|-", obs.join(" "));
+            }
+            let (gg, _) = ctl.cv.wait_timeout(g, deadline - now).unwrap();
+            g = gg;
+        }
+    }
+    let results: Vec<String> = handles
+        .into_iter()
+        .map(|h| match h.join().unwrap() {
+            None => "none".to_string(),
+            Some(c) => c.trim_start_matches('c').to_string(),
+        })
+        .collect();
+    // what is cached now: change the files, a cached path still answers with the old content
+    let mut cache = Vec::new();
+    for p in 0..fsl.len() {
+        std::fs::write(file_of(p), "changed").unwrap();
+        match hooks::cached_source(&file_of(p)) {
+            Some(c) if &*c != "changed" => cache.push(c.trim_start_matches('c').to_string()),
+            _ => cache.push("-".to_string()),
+        }
+    }
+    format!("{}|{}|{}", obs.join(" "), results.join(" "), cache.join(" "))
 }
 
 fn make_report(dir: &str, file: &str, k: usize) -> ErrorReport {
